@@ -935,7 +935,7 @@ func c3RunCase(t *testing.T, out *zzverif.Out, c *c3Case) {
 			if !sawSuccess && !c3NeedsChild(a) {
 				out.L2("success-without-status", line, where)
 			}
-			for _, l := range reg.all() {
+			for li, l := range reg.all() {
 				if len(l.ref) != 64 {
 					out.L2("success-unaddressable-layer", line, "ref="+l.ref+" "+where)
 					continue
@@ -975,12 +975,14 @@ func c3RunCase(t *testing.T, out *zzverif.Out, c *c3Case) {
 							scripted = true
 						}
 					}
-					stored := int64(-1)
+					stored := int64(-1) // the size the stored manifest declares for the descriptor at the same position
 					if sm := after.mans[c.name]; sm != nil {
-						for _, sl := range append(append([]Layer{}, sm.Layers...), sm.Config) {
-							if c3RefOf(sl.Digest) == l.ref {
-								stored = sl.Size
-							}
+						sall := append([]Layer{}, sm.Layers...)
+						if sm.Config.Digest != "" {
+							sall = append(sall, sm.Config)
+						}
+						if li < len(sall) && c3RefOf(sall[li].Digest) == l.ref {
+							stored = sall[li].Size
 						}
 					}
 					out.L2("success-size-mismatch", line, fmt.Sprintf("layer=%s scripted-size-lie=%v served-size=%d stored-manifest-size=%d actual=%d %s", l.ref[:12], scripted && stored == l.size, l.size, stored, len(b), where))
